@@ -951,6 +951,14 @@ def inlined(units):
     return out if changed else units
 
 
+def as_written(unit):
+    """the unit a view produced by inlined() was made from (the unit itself when it is no such view)"""
+    for (orig, view) in _inl_cache.values():
+        if view is unit:
+            return orig
+    return unit
+
+
 # ---- anchors that moved: delegation and renaming ----------------------------------------------------------------------
 
 def fold_delegations(u, unit_name):
